@@ -30,7 +30,7 @@ META = {
     "technique": "Lean 4 proof over regenerated constants/tables + hand-written framing/dispatch model, differential correspondence, "
                  "reflection-driven round-trip exploration of every registered type on the real code",
 }
-REQUIRED = ["header_regex_is_modelled", "regex_prefix_is_writer_prefix", "header_suffix_is_delimiter", "max_length_fits_int64",
+REQUIRED = ["takeN_short", "base_truncated_content", "header_regex_is_modelled", "regex_prefix_is_writer_prefix", "header_suffix_is_delimiter", "max_length_fits_int64",
             "decimal_roundtrip", "read_len_write_header", "read_write_base", "too_long_rejected", "base_stream_roundtrip_rest",
             "base_stream_roundtrip", "base_chunking_irrelevant", "read_write_base_chunked", "kind_literals",
             "request_names_distinct", "response_names_distinct", "event_names_distinct", "dispatch_total", "dispatch_injective",
